@@ -33,10 +33,11 @@ structure LiveObs where
   stor : Addr → Nat → Nat
   logs : List Log
   stake : Addr → Nat
+  sui : Addr → Bool
 
 def Obs.toLive (o : Obs) : LiveObs :=
   { live := fun a => o.exist a = true ∧ o.nonEmpty a, nonce := o.nonce, bal := o.bal, code := o.code,
-    stor := o.stor, logs := o.logs, stake := o.stake }
+    stor := o.stor, logs := o.logs, stake := o.stake, sui := o.sui }
 
 def liveObs (w : World) : LiveObs := (obs w).toLive
 
